@@ -148,6 +148,17 @@ var Probes = []Probe{
 			}
 			return false, ""
 		}},
+	{ID: "O35", Props: []string{"C02"}, Input: "a := {}; if false { a[0]…(256 selectors) = 1 }", WhatFail: "the selector count of OpSetSel* is a one-byte operand (and the element counts of OpArray/OpMap two-byte operands): 256 selectors were compiled as 0, leaving 256 values on the operand stack of a path",
+		Run: func() (bool, string) {
+			_, e, p := RunScript("a := {}\nif false {\n a"+strings.Repeat("[0]", 256)+" = 1\n}\n", 5*time.Second)
+			if p != "" {
+				return true, "panic: " + p
+			}
+			if !strings.Contains(e, "too many selectors") {
+				return true, "compiled without the operand-width error: " + e
+			}
+			return false, ""
+		}},
 	{ID: "O30", Props: []string{"C01", "C02"}, Input: "call with 256 arguments", WhatFail: "the argument count of OpCall is one byte: a call with 256 arguments is compiled as a call with 0 arguments",
 		Run: func() (bool, string) {
 			var ps, as []string
